@@ -196,26 +196,23 @@ Qed.
 (* ------------------------------------------------------------------------------------------ *)
 (** * the sections of a table at a longer path are the same sections, shifted *)
 
-Lemma flat_map_ext_Forall2 {A B} (f g : A -> list B) l : Forall (fun x => f x = g x) l -> flat_map f l = flat_map g l.
-Proof. apply flat_map_ext_Forall. Qed.
-
-Lemma sections_shift ml v : forall three q p kind,
-  sections_at ml three v (q ++ p) kind = map (shift q) (sections_at ml three v p kind).
+Lemma sections_shift ml tn v : forall three q p kind,
+  sections_at ml three tn v (q ++ p) kind = map (shift q) (sections_at ml three tn v p kind).
 Proof.
   induction v as [t|l IH|m IH] using tv_ind2; intros three q p kind; try reflexivity.
   rewrite !sections_at_tab, map_app. f_equal.
-  - unfold own_section. destruct (own_visible kind m (own_lines ml three m)); reflexivity.
-  - assert (Et : forall kv, In kv m -> tab_secs ml (q ++ p) kv = map (shift q) (tab_secs ml p kv)).
+  - unfold own_section. destruct (own_visible kind m (own_lines ml three tn m)); reflexivity.
+  - assert (Et : forall kv, In kv m -> tab_secs ml tn (q ++ p) kv = map (shift q) (tab_secs ml tn p kv)).
     { intros [k x] Hin. rewrite Forall_forall in IH. destruct (IH _ Hin) as [Hx _].
       unfold tab_secs. cbn [fst snd] in *. destruct x as [t|l|m']; try reflexivity.
       rewrite <- app_assoc. apply Hx. }
     assert (Ee : forall kv l, In kv m -> snd kv = TArr l ->
-                 elem_secs ml (q ++ p) (fst kv) l = map (shift q) (elem_secs ml p (fst kv) l)).
+                 elem_secs ml tn (q ++ p) (fst kv) l = map (shift q) (elem_secs ml tn p (fst kv) l)).
     { intros [k x] l Hin E. rewrite Forall_forall in IH. destruct (IH _ Hin) as [_ Hl].
       cbn [fst snd] in *. specialize (Hl l E). unfold elem_secs. rewrite map_flat_map.
       apply flat_map_ext_Forall. eapply Forall_impl; [|exact Hl]. intros e He.
       rewrite <- app_assoc. apply He. }
-    destruct three.
+    unfold rest_secs. destruct three.
     + rewrite map_app, !map_flat_map. f_equal; apply flat_map_ext_Forall; apply Forall_forall; intros kv Hin.
       * unfold aot_secs. destruct (is_aot (snd kv)); [|reflexivity].
         destruct (snd kv) as [t|l|m'] eqn:E; try reflexivity. apply (Ee kv l Hin E).
@@ -259,8 +256,46 @@ Proof.
   - symmetry. rewrite !app_assoc. apply Permutation_cons_app. rewrite <- !app_assoc. symmetry. exact IH.
 Qed.
 
-Lemma order4_nodup m : NoDup (map fst m) -> NoDup (map fst (order4 m)).
-Proof. intro H. eapply Permutation_NoDup; [|exact H]. apply Permutation_map. symmetry. apply order4_perm. Qed.
+Lemma filter_negb_perm {A} (f : A -> bool) l : Permutation (filter f l ++ filter (fun x => negb (f x)) l) l.
+Proof.
+  induction l as [|x r IH]; [constructor|]. cbn [filter]. destruct (f x); cbn [negb app].
+  - constructor. exact IH.
+  - symmetry. apply Permutation_cons_app. symmetry. exact IH.
+Qed.
+
+(* the entries of a table as the document lists them: the key/value lines, then the rest *)
+Definition lines_e (three : bool) (m : list (bytes * tv)) : list (bytes * tv) :=
+  if three then filter (fun kv => is_plain (snd kv)) m ++ filter (fun kv => is_mixed (snd kv)) m
+  else filter (fun kv => is_line (snd kv)) m.
+Definition subs_e (three : bool) (m : list (bytes * tv)) : list (bytes * tv) :=
+  if three then filter (fun kv => is_aot (snd kv)) m ++ filter (fun kv => is_table (snd kv)) m
+  else filter (fun kv => negb (is_line (snd kv))) m.
+Definition doc_order (three : bool) (m : list (bytes * tv)) : list (bytes * tv) := lines_e three m ++ subs_e three m.
+
+Lemma doc_order_perm three m : Permutation (doc_order three m) m.
+Proof.
+  unfold doc_order, lines_e, subs_e. destruct three.
+  - rewrite <- app_assoc. apply order4_perm.
+  - apply filter_negb_perm.
+Qed.
+
+Lemma doc_order_nodup three m : NoDup (map fst m) -> NoDup (map fst (doc_order three m)).
+Proof. intro H. eapply Permutation_NoDup; [|exact H]. apply Permutation_map. symmetry. apply doc_order_perm. Qed.
+
+Lemma Forall_lines_e {P : bytes * tv -> Prop} three m : Forall P m -> Forall P (lines_e three m).
+Proof. intro H. unfold lines_e. destruct three; [apply Forall_app; split|]; apply Forall_filter; exact H. Qed.
+
+Lemma not_line_cases x : negb (is_line x) = true -> is_aot x = true \/ is_table x = true.
+Proof.
+  unfold is_line. destruct (is_table x); [right; reflexivity|]. destruct (is_aot x); [left; reflexivity|discriminate].
+Qed.
+
+Lemma subs_e_cases three m kv : In kv (subs_e three m) -> In kv m /\ (is_aot (snd kv) = true \/ is_table (snd kv) = true).
+Proof.
+  unfold subs_e. destruct three.
+  - rewrite in_app_iff. intros [H|H]; apply filter_In in H as [Hin F]; auto.
+  - intro H. apply filter_In in H as [Hin F]. split; [exact Hin|]. apply not_line_cases. exact F.
+Qed.
 
 Lemma NoDup_app_inv {A} (l l' : list A) :
   NoDup (l ++ l') -> NoDup l /\ NoDup l' /\ forall x, In x l -> ~ In x l'.
@@ -293,13 +328,16 @@ Proof.
   - symmetry. rewrite app_assoc. apply Permutation_cons_app. rewrite <- app_assoc. symmetry. exact IH.
 Qed.
 
+Lemma ordn_perm tn m : Permutation (ordn tn m) m.
+Proof. destruct tn; [apply order3_perm|reflexivity]. Qed.
+
 Lemma iv_ok_inl m :
   iv_ok (VInl m) = keys_distinct m && forallb (fun kv => iv_ok (snd kv)) m.
 Proof.
   cbn [iv_ok]. f_equal. induction m as [|[k x] r IH]; [reflexivity|]. cbn [forallb snd]. rewrite IH. reflexivity.
 Qed.
 
-Lemma iv_ok_inline ml v : wf_tv v = true -> iv_ok (inline_of ml v) = true.
+Lemma iv_ok_inline ml tn v : wf_tv v = true -> iv_ok (inline_of ml tn v) = true.
 Proof.
   induction v as [t|l IH|m IH] using tv_ind'; intro W.
   - reflexivity.
@@ -307,94 +345,106 @@ Proof.
     rewrite Forall_forall in IH. apply IH; [exact He|]. apply wf_arr in W. rewrite Forall_forall in W. apply W. exact He.
   - rewrite inline_of_tab, iv_ok_inl. apply wf_tab in W as [ND W]. apply andb_true_iff. split.
     + apply keys_distinct_spec. rewrite map_map. cbn [fst].
-      eapply Permutation_NoDup; [|exact ND]. apply Permutation_map. symmetry. apply order3_perm.
+      eapply Permutation_NoDup; [|exact ND]. apply Permutation_map. symmetry. apply ordn_perm.
     + rewrite forallb_map. apply forallb_forall. intros kv Hin. cbn [snd].
-      assert (Hm : In kv m) by (eapply Permutation_in; [apply order3_perm|exact Hin]).
+      assert (Hm : In kv m) by (eapply Permutation_in; [apply ordn_perm|exact Hin]).
       rewrite Forall_forall in IH, W. apply IH; [exact Hm|]. apply W. exact Hm.
 Qed.
 
 (* ------------------------------------------------------------------------------------------ *)
 (** * the tree a reader builds from the canonical document *)
 
-Definition line_node (ml : bool) (kv : bytes * tv) : bytes * rnode :=
-  (fst kv, RVal (value_of (inline_of ml (snd kv)))).
-Definition vis_std (ml : bool) (m : list (bytes * tv)) : bool := own_visible KStd m (own_lines ml true m).
+Definition line_node (ml tn : bool) (kv : bytes * tv) : bytes * rnode :=
+  (fst kv, RVal (value_of (inline_of ml tn (snd kv)))).
+Definition vis_std (ml tn : bool) (m : list (bytes * tv)) : bool := own_visible KStd m (own_lines ml tn tn m).
 
 Definition aot_of (es : list (list (bytes * rnode))) : rnode := RAot (removelast es) (last es []).
 
-Fixpoint expect (ml : bool) (v : tv) : list (bytes * rnode) :=
+Fixpoint expect (ml tn : bool) (v : tv) : list (bytes * rnode) :=
   match v with
   | TTab m =>
-    map (line_node ml) (filter (fun kv => is_plain (snd kv)) m ++ filter (fun kv => is_mixed (snd kv)) m) ++
-    (fix aots (m : list (bytes * tv)) : list (bytes * rnode) :=
-       match m with
-       | [] => []
-       | (k, x) :: r =>
-         (if is_aot x
-          then match x with
-               | TArr l => [(k, aot_of (map (expect ml) l))]
-               | _ => []
-               end
-          else []) ++ aots r
-       end) m ++
-    (fix tabs (m : list (bytes * tv)) : list (bytes * rnode) :=
-       match m with
-       | [] => []
-       | (k, x) :: r =>
-         (match x with TTab m' => [(k, RTab (vis_std ml m') (expect ml x))] | _ => [] end) ++ tabs r
-       end) m
+    map (line_node ml tn) (lines_e tn m) ++
+    (if tn
+     then
+       (fix aots (m : list (bytes * tv)) : list (bytes * rnode) :=
+          match m with
+          | [] => []
+          | (k, x) :: r =>
+            (if is_aot x
+             then match x with
+                  | TArr l => [(k, aot_of (map (expect ml tn) l))]
+                  | _ => []
+                  end
+             else []) ++ aots r
+          end) m ++
+       (fix tabs (m : list (bytes * tv)) : list (bytes * rnode) :=
+          match m with
+          | [] => []
+          | (k, x) :: r =>
+            (match x with TTab m' => [(k, RTab (vis_std ml tn m') (expect ml tn x))] | _ => [] end) ++ tabs r
+          end) m
+     else
+       (fix subs (m : list (bytes * tv)) : list (bytes * rnode) :=
+          match m with
+          | [] => []
+          | (k, x) :: r =>
+            (match x with
+             | TTab m' => [(k, RTab (vis_std ml tn m') (expect ml tn x))]
+             | TArr l => if is_aot x then [(k, aot_of (map (expect ml tn) l))] else []
+             | TLeaf _ => []
+             end) ++ subs r
+          end) m)
   | _ => []
   end.
 
 (* the node an entry that is not a key/value line becomes *)
-Definition sub_rnode (ml : bool) (x : tv) : rnode :=
+Definition sub_rnode (ml tn : bool) (x : tv) : rnode :=
   match x with
-  | TTab m' => RTab (vis_std ml m') (expect ml x)
-  | TArr l => aot_of (map (expect ml) l)
+  | TTab m' => RTab (vis_std ml tn m') (expect ml tn x)
+  | TArr l => aot_of (map (expect ml tn) l)
   | TLeaf t => RVal (TLeaf t)
   end.
-Definition sub_entry (ml : bool) (kv : bytes * tv) : bytes * rnode := (fst kv, sub_rnode ml (snd kv)).
+Definition sub_entry (ml tn : bool) (kv : bytes * tv) : bytes * rnode := (fst kv, sub_rnode ml tn (snd kv)).
 
-Lemma expect_tab ml m :
-  expect ml (TTab m) =
-  map (line_node ml) (filter (fun kv => is_plain (snd kv)) m ++ filter (fun kv => is_mixed (snd kv)) m) ++
-  map (sub_entry ml) (filter (fun kv => is_aot (snd kv)) m) ++
-  map (sub_entry ml) (filter (fun kv => is_table (snd kv)) m).
+Lemma expect_tab ml tn m :
+  expect ml tn (TTab m) = map (line_node ml tn) (lines_e tn m) ++ map (sub_entry ml tn) (subs_e tn m).
 Proof.
-  cbn [expect]. f_equal. f_equal.
-  - induction m as [|[k x] r IH]; [reflexivity|]. rewrite IH. cbn [filter snd].
-    destruct (is_aot x) eqn:A; [|reflexivity]. destruct x as [t|l|m']; try discriminate. reflexivity.
-  - induction m as [|[k x] r IH]; [reflexivity|]. rewrite IH. cbn [filter snd].
-    destruct x as [t|l|m']; reflexivity.
+  cbn [expect]. f_equal. unfold subs_e. destruct tn.
+  - rewrite map_app. f_equal.
+    + induction m as [|[k x] r IH]; [reflexivity|]. rewrite IH. cbn [filter snd].
+      destruct (is_aot x) eqn:A; [|reflexivity]. destruct x as [t|l|m']; try discriminate. reflexivity.
+    + induction m as [|[k x] r IH]; [reflexivity|]. rewrite IH. cbn [filter snd].
+      destruct x as [t|l|m']; reflexivity.
+  - induction m as [|[k x] r IH]; [reflexivity|]. rewrite IH. cbn [filter snd]. unfold is_line.
+    destruct x as [t|l|m']; try reflexivity.
+    cbn [is_table negb andb]. destruct (is_aot (TArr l)); reflexivity.
 Qed.
 
-Definition expect_root (ml three : bool) (m : list (bytes * tv)) : list (bytes * rnode) :=
-  if three then expect ml (TTab m)
-  else map (line_node ml) (filter (fun kv => is_line (snd kv)) m) ++
-       map (sub_entry ml) (filter (fun kv => negb (is_line (snd kv))) m).
+Definition expect_root (ml three tn : bool) (m : list (bytes * tv)) : list (bytes * rnode) :=
+  map (line_node ml tn) (lines_e three m) ++ map (sub_entry ml tn) (subs_e three m).
 
 (* ------------------------------------------------------------------------------------------ *)
 (** * groups of sub-sections *)
 
 (* the sections of an entry that is a table or an array of tables, relative to its own key *)
-Definition sub_group (ml : bool) (x : tv) : list section :=
+Definition sub_group (ml tn : bool) (x : tv) : list section :=
   match x with
-  | TTab _ => sections_at ml true x [] KStd
-  | TArr l => flat_map (fun e => sections_at ml true e [] KArr) l
+  | TTab _ => sections_at ml tn tn x [] KStd
+  | TArr l => flat_map (fun e => sections_at ml tn tn e [] KArr) l
   | TLeaf _ => []
   end.
 
-Definition shifted_group (ml : bool) (kv : bytes * tv) : list section :=
-  map (shift [fst kv]) (sub_group ml (snd kv)).
+Definition shifted_group (ml tn : bool) (kv : bytes * tv) : list section :=
+  map (shift [fst kv]) (sub_group ml tn (snd kv)).
 
-Lemma elem_secs_group ml k l : elem_secs ml [] k l = map (shift [k]) (sub_group ml (TArr l)).
+Lemma elem_secs_group ml tn k l : elem_secs ml tn [] k l = map (shift [k]) (sub_group ml tn (TArr l)).
 Proof.
   unfold elem_secs. cbn [sub_group app]. rewrite map_flat_map. apply flat_map_ext. intro e.
-  exact (sections_shift ml e true [k] [] KArr).
+  exact (sections_shift ml tn e tn [k] [] KArr).
 Qed.
 
-Lemma tab_secs_group ml k m' : tab_secs ml [] (k, TTab m') = shifted_group ml (k, TTab m').
-Proof. unfold tab_secs, shifted_group. cbn [fst snd sub_group app]. exact (sections_shift ml (TTab m') true [k] [] KStd). Qed.
+Lemma tab_secs_group ml tn k m' : tab_secs ml tn [] (k, TTab m') = shifted_group ml tn (k, TTab m').
+Proof. unfold tab_secs, shifted_group. cbn [fst snd sub_group app]. exact (sections_shift ml tn (TTab m') tn [k] [] KStd). Qed.
 
 Lemma flat_map_filter {A B} (p : A -> bool) (f g : A -> list B) l :
   (forall x, f x = if p x then g x else []) -> flat_map f l = flat_map g (filter p l).
@@ -403,54 +453,61 @@ Proof.
   destruct (p x); cbn [flat_map app]; rewrite IH; reflexivity.
 Qed.
 
-Lemma aot_secs_groups ml m :
-  flat_map (aot_secs ml []) m = flat_map (shifted_group ml) (filter (fun kv => is_aot (snd kv)) m).
+Lemma aot_secs_groups ml tn m :
+  flat_map (aot_secs ml tn []) m = flat_map (shifted_group ml tn) (filter (fun kv => is_aot (snd kv)) m).
 Proof.
   apply flat_map_filter. intros [k x]. unfold aot_secs, shifted_group. cbn [fst snd].
   destruct (is_aot x) eqn:A; [|reflexivity]. destruct x as [t|l|m']; try discriminate. apply elem_secs_group.
 Qed.
 
-Lemma tab_secs_groups ml m :
-  flat_map (tab_secs ml []) m = flat_map (shifted_group ml) (filter (fun kv => is_table (snd kv)) m).
+Lemma tab_secs_groups ml tn m :
+  flat_map (tab_secs ml tn []) m = flat_map (shifted_group ml tn) (filter (fun kv => is_table (snd kv)) m).
 Proof.
   apply flat_map_filter. intros [k x]. destruct x as [t|l|m']; try reflexivity. apply tab_secs_group.
 Qed.
 
-Lemma sub_secs_groups ml m :
-  flat_map (sub_secs ml []) m = flat_map (shifted_group ml) (filter (fun kv => negb (is_line (snd kv))) m).
+Lemma sub_secs_groups ml tn m :
+  flat_map (sub_secs ml tn []) m = flat_map (shifted_group ml tn) (filter (fun kv => negb (is_line (snd kv))) m).
 Proof.
   apply flat_map_filter. intros [k x]. unfold sub_secs, shifted_group, is_line. cbn [fst snd].
   destruct x as [t|l|m'].
   - reflexivity.
   - cbn [is_table negb andb]. destruct (is_aot (TArr l)) eqn:A; [|reflexivity]. cbn [negb]. apply elem_secs_group.
-  - cbn [is_table negb andb]. exact (tab_secs_group ml k m').
+  - cbn [is_table negb andb]. exact (tab_secs_group ml tn k m').
 Qed.
 
-Lemma shifted_nonroot ml kv : Forall nonroot (shifted_group ml kv).
+Lemma rest_groups ml three tn m : rest_secs ml three tn m [] = flat_map (shifted_group ml tn) (subs_e three m).
+Proof.
+  unfold rest_secs, subs_e. destruct three.
+  - rewrite aot_secs_groups, tab_secs_groups, flat_map_app. reflexivity.
+  - apply sub_secs_groups.
+Qed.
+
+Lemma shifted_nonroot ml tn kv : Forall nonroot (shifted_group ml tn kv).
 Proof. unfold shifted_group. apply Forall_forall. intros s H. apply in_map_iff in H as (s' & <- & _). discriminate. Qed.
 
-Lemma groups_nonroot ml l : Forall nonroot (flat_map (shifted_group ml) l).
+Lemma groups_nonroot ml tn l : Forall nonroot (flat_map (shifted_group ml tn) l).
 Proof.
   induction l as [|kv r IH]; [constructor|]. cbn [flat_map]. apply Forall_app. split; [apply shifted_nonroot|exact IH].
 Qed.
 
 (* what must hold of an entry for its group to be read as the node sub_rnode *)
-Definition sub_ok (ml : bool) (x : tv) : Prop :=
-  sub_group ml x <> [] /\ fold_place None (sub_group ml x) = Some (Some (sub_rnode ml x)).
+Definition sub_ok (ml tn : bool) (x : tv) : Prop :=
+  sub_group ml tn x <> [] /\ fold_place None (sub_group ml tn x) = Some (Some (sub_rnode ml tn x)).
 
-Lemma subs_fold ml subs : forall mm,
-  Forall (fun kv => sub_ok ml (snd kv)) subs -> NoDup (map fst subs) ->
+Lemma subs_fold ml tn subs : forall mm,
+  Forall (fun kv => sub_ok ml tn (snd kv)) subs -> NoDup (map fst subs) ->
   (forall k, In k (map fst subs) -> ~ In k (map fst mm)) ->
-  fold_in mm (flat_map (shifted_group ml) subs) = Some (mm ++ map (sub_entry ml) subs).
+  fold_in mm (flat_map (shifted_group ml tn) subs) = Some (mm ++ map (sub_entry ml tn) subs).
 Proof.
   induction subs as [|[k x] r IH]; intros mm Ok ND Dis.
   - cbn. rewrite app_nil_r. reflexivity.
   - inversion Ok as [|? ? [NE Hx] Ok']; subst. cbn [map fst] in ND, Dis. inversion ND as [|? ? Hk ND']; subst.
     cbn [flat_map]. rewrite fold_in_app. unfold shifted_group at 1. cbn [fst snd] in *.
-    rewrite (fold_in_group k (sub_group ml x) mm NE).
+    rewrite (fold_in_group k (sub_group ml tn x) mm NE).
     rewrite (rlookup_none k mm) by (apply Dis; left; reflexivity). rewrite Hx.
     rewrite (rset_new k _ mm) by (apply Dis; left; reflexivity).
-    rewrite (IH (mm ++ [(k, sub_rnode ml x)]) Ok' ND').
+    rewrite (IH (mm ++ [(k, sub_rnode ml tn x)]) Ok' ND').
     + cbn [map]. rewrite <- app_assoc. reflexivity.
     + intros k' Hin. rewrite map_app, in_app_iff. cbn [map fst In]. intros [H|[H|[]]].
       * apply (Dis k'); [right; exact Hin|exact H].
@@ -460,49 +517,51 @@ Qed.
 (* ------------------------------------------------------------------------------------------ *)
 (** * every table writes at least one section *)
 
-Lemma own_lines_nil ml k x r :
-  own_lines ml true ((k, x) :: r) = [] -> is_plain x = false /\ is_mixed x = false.
+Lemma own_lines_nil ml three tn k x r :
+  own_lines ml three tn ((k, x) :: r) = [] -> is_aot x = true \/ is_table x = true.
 Proof.
-  unfold own_lines, lines_where. cbn [filter snd]. intro H. apply app_eq_nil in H as [H1 H2].
-  split.
-  - destruct (is_plain x); [discriminate|reflexivity].
-  - destruct (is_mixed x); [discriminate|reflexivity].
+  unfold own_lines, lines_where. destruct three; cbn [filter snd]; intro H.
+  - apply app_eq_nil in H as [H1 H2].
+    destruct (class_cases x) as [(A & B & C & D)|[(A & B & C & D)|[(A & B & C & D)|(A & B & C & D)]]];
+      rewrite ?A, ?B in *; try discriminate; auto.
+  - apply not_line_cases. destruct (is_line x); [discriminate|reflexivity].
 Qed.
 
-Lemma sections_nonempty ml v : is_table v = true -> forall p kind, sections_at ml true v p kind <> [].
+Lemma sections_nonempty ml tn v : is_table v = true -> forall three p kind, sections_at ml three tn v p kind <> [].
 Proof.
-  induction v as [t|l IH|m IH] using tv_ind2; intro T; try discriminate. intros p kind.
+  induction v as [t|l IH|m IH] using tv_ind2; intro T; try discriminate. intros three p kind.
   rewrite sections_at_tab. unfold own_section.
-  destruct (own_visible kind m (own_lines ml true m)) eqn:V; [discriminate|].
+  destruct (own_visible kind m (own_lines ml three tn m)) eqn:V; [discriminate|].
   cbn [app]. destruct kind; try discriminate. cbn [own_visible] in V. apply negb_false_iff in V.
   apply andb_true_iff in V as [Vm Vl]. apply negb_true_iff in Vl.
   destruct m as [|[k x] r]; [discriminate|].
-  assert (L : own_lines ml true ((k, x) :: r) = []) by (destruct (own_lines ml true ((k, x) :: r)); [reflexivity|discriminate]).
-  apply own_lines_nil in L as [L1 L2].
+  assert (L : own_lines ml three tn ((k, x) :: r) = []) by (destruct (own_lines ml three tn ((k, x) :: r)); [reflexivity|discriminate]).
+  apply own_lines_nil in L.
   inversion IH as [|? ? [Hx Hl] _]; subst. cbn [snd] in *.
-  destruct (class_cases x) as [(A & B & C & D)|[(A & B & C & D)|[(A & B & C & D)|(A & B & C & D)]]]; try congruence.
-  - (* an array of tables: its first element writes [[k]] *)
-    destruct x as [t|l|m']; try discriminate. destruct l as [|e q]; [discriminate|].
-    cbn [flat_map]. unfold aot_secs at 1. cbn [fst snd]. rewrite C. unfold elem_secs. cbn [flat_map].
-    specialize (Hl (e :: q) eq_refl). inversion Hl as [|? ? He _]; subst.
-    cbn [is_aot forallb] in C. apply andb_true_iff in C as [Te _].
-    intro H. apply app_eq_nil in H as [H _]. apply app_eq_nil in H as [H _]. apply app_eq_nil in H as [H _].
-    exact (He Te _ _ H).
-  - destruct x as [t|l|m']; try discriminate.
-    cbn [flat_map]. unfold tab_secs at 1. cbn [fst snd].
-    intro H. apply app_eq_nil in H as [_ H]. apply app_eq_nil in H as [H _]. exact (Hx eq_refl _ _ H).
+  assert (NE : sub_secs ml tn p (k, x) <> []).
+  { unfold sub_secs. cbn [fst snd]. destruct L as [A|Tx].
+    - destruct x as [t|l|m']; try discriminate. rewrite A. destruct l as [|e q]; [discriminate|].
+      unfold elem_secs. cbn [flat_map]. specialize (Hl (e :: q) eq_refl). inversion Hl as [|? ? He _]; subst.
+      cbn [is_aot forallb] in A. apply andb_true_iff in A as [Te _].
+      intro H. apply app_eq_nil in H as [H _]. exact (He Te _ _ _ H).
+    - destruct x as [t|l|m']; try discriminate. exact (Hx eq_refl _ _ _). }
+  rewrite <- sub_secs_ordn. intro H.
+  assert (Hin : In (k, x) (ordn three ((k, x) :: r))).
+  { eapply Permutation_in; [symmetry; apply ordn_perm|left; reflexivity]. }
+  apply NE. clear -H Hin. induction (ordn three ((k, x) :: r)) as [|y q IH]; [destruct Hin|].
+  cbn [flat_map] in H. apply app_eq_nil in H as [H1 H2]. destruct Hin as [->|Hin]; [exact H1|apply IH; assumption].
 Qed.
 
 (* ------------------------------------------------------------------------------------------ *)
 (** * one table: its lines, then the groups of its sub-entries *)
 
-Lemma table_fold ml (le se : list (bytes * tv)) :
+Lemma table_fold ml tn (le se : list (bytes * tv)) :
   NoDup (map fst (le ++ se)) ->
   Forall (fun kv => wf_tv (snd kv) = true) le ->
-  Forall (fun kv => sub_ok ml (snd kv)) se ->
-  add_lines (map (fun kv => (fst kv, inline_of ml (snd kv))) le) [] = Some (map (line_node ml) le) /\
-  fold_in (map (line_node ml) le) (flat_map (shifted_group ml) se)
-  = Some (map (line_node ml) le ++ map (sub_entry ml) se).
+  Forall (fun kv => sub_ok ml tn (snd kv)) se ->
+  add_lines (map (fun kv => (fst kv, inline_of ml tn (snd kv))) le) [] = Some (map (line_node ml tn) le) /\
+  fold_in (map (line_node ml tn) le) (flat_map (shifted_group ml tn) se)
+  = Some (map (line_node ml tn) le ++ map (sub_entry ml tn) se).
 Proof.
   intros ND W Ok. rewrite map_app in ND. apply NoDup_app_inv in ND as (N1 & N2 & Dis). split.
   - rewrite add_lines_ok.
@@ -518,62 +577,56 @@ Qed.
 Definition aot_start (n0 : option rnode) (done' : list (list (bytes * rnode))) : Prop :=
   (n0 = None /\ done' = []) \/ (exists done cur, n0 = Some (RAot done cur) /\ done' = done ++ [cur]).
 
-Definition read_std (ml : bool) (m : list (bytes * tv)) : Prop :=
-  fold_place None (sections_at ml true (TTab m) [] KStd) = Some (Some (RTab (vis_std ml m) (expect ml (TTab m)))).
-Definition read_arr (ml : bool) (m : list (bytes * tv)) : Prop :=
+Definition read_std (ml tn : bool) (m : list (bytes * tv)) : Prop :=
+  fold_place None (sections_at ml tn tn (TTab m) [] KStd) = Some (Some (RTab (vis_std ml tn m) (expect ml tn (TTab m)))).
+Definition read_arr (ml tn : bool) (m : list (bytes * tv)) : Prop :=
   forall n0 done', aot_start n0 done' ->
-  fold_place n0 (sections_at ml true (TTab m) [] KArr) = Some (Some (RAot done' (expect ml (TTab m)))).
+  fold_place n0 (sections_at ml tn tn (TTab m) [] KArr) = Some (Some (RAot done' (expect ml tn (TTab m)))).
 
-Definition lines_e (m : list (bytes * tv)) := filter (fun kv => is_plain (snd kv)) m ++ filter (fun kv => is_mixed (snd kv)) m.
-Definition subs_e (m : list (bytes * tv)) := filter (fun kv => is_aot (snd kv)) m ++ filter (fun kv => is_table (snd kv)) m.
+Lemma own_lines_e ml three tn m : own_lines ml three tn m = map (fun kv => (fst kv, inline_of ml tn (snd kv))) (lines_e three m).
+Proof. unfold own_lines, lines_where, lines_e. destruct three; [rewrite map_app|]; reflexivity. Qed.
 
-Lemma order4_split m : order4 m = lines_e m ++ subs_e m.
-Proof. unfold order4, lines_e, subs_e. rewrite <- app_assoc. reflexivity. Qed.
-
-Lemma own_lines_e ml m : own_lines ml true m = map (fun kv => (fst kv, inline_of ml (snd kv))) (lines_e m).
-Proof. unfold own_lines, lines_where, lines_e. rewrite map_app. reflexivity. Qed.
-
-Lemma expect_split ml m : expect ml (TTab m) = map (line_node ml) (lines_e m) ++ map (sub_entry ml) (subs_e m).
-Proof. rewrite expect_tab. unfold lines_e, subs_e. rewrite !map_app. reflexivity. Qed.
-
-Lemma rest_groups ml m :
-  flat_map (aot_secs ml []) m ++ flat_map (tab_secs ml []) m = flat_map (shifted_group ml) (subs_e m).
-Proof. rewrite aot_secs_groups, tab_secs_groups. unfold subs_e. rewrite flat_map_app. reflexivity. Qed.
-
-Lemma Forall_filter_in {A} (P : A -> Prop) f l : Forall P l -> Forall P (filter f l).
-Proof. apply Forall_filter. Qed.
-
-Lemma read_level ml m :
+(* the lines and the groups of one table, whoever ordered it *)
+Lemma level_fold ml three tn m :
   NoDup (map fst m) -> Forall (fun kv => wf_tv (snd kv) = true) m ->
-  Forall (fun kv => sub_ok ml (snd kv)) (subs_e m) ->
-  read_std ml m /\ read_arr ml m.
+  Forall (fun kv => sub_ok ml tn (snd kv)) (subs_e three m) ->
+  add_lines (own_lines ml three tn m) [] = Some (map (line_node ml tn) (lines_e three m)) /\
+  fold_in (map (line_node ml tn) (lines_e three m)) (rest_secs ml three tn m [])
+  = Some (expect_root ml three tn m).
 Proof.
   intros ND W Ok.
-  assert (ND4 : NoDup (map fst (lines_e m ++ subs_e m))) by (rewrite <- order4_split; apply order4_nodup; exact ND).
-  assert (Wl : Forall (fun kv => wf_tv (snd kv) = true) (lines_e m)).
-  { unfold lines_e. apply Forall_app. split; apply Forall_filter; exact W. }
-  destruct (table_fold ml (lines_e m) (subs_e m) ND4 Wl Ok) as [HL HS].
-  rewrite <- own_lines_e in HL.
-  split.
-  - unfold read_std. pose proof (sections_nonempty ml (TTab m) eq_refl [] KStd) as NE.
-    rewrite sections_at_tab in NE |- *. rewrite rest_groups in NE |- *. unfold own_section in NE |- *.
-    fold (vis_std ml m) in NE |- *. destruct (vis_std ml m) eqn:V.
-    + cbn [app fold_place]. unfold place_sec. cbn [s_path s_kind s_lines place]. rewrite HL. cbn [optmap].
-      rewrite fold_place_tab by apply groups_nonroot. rewrite HS. cbn [optmap]. rewrite expect_split. reflexivity.
-    + cbn [app] in NE |- *. rewrite fold_place_none; [|apply groups_nonroot|exact NE].
-      assert (L0 : lines_e m = []).
-      { unfold vis_std in V. cbn [own_visible] in V. apply negb_false_iff in V. apply andb_true_iff in V as [_ V].
-        apply negb_true_iff in V. rewrite own_lines_e in V. destruct (lines_e m); [reflexivity|discriminate]. }
-      rewrite L0 in HS. cbn [map] in HS. rewrite HS. cbn [optmap app]. rewrite expect_split, L0. reflexivity.
-  - intros n0 done' St. rewrite sections_at_tab, rest_groups. unfold own_section. cbn [own_visible app fold_place].
-    unfold place_sec. cbn [s_path s_kind s_lines].
-    assert (P0 : place n0 [] KArr (own_lines ml true m) = Some (RAot done' (map (line_node ml) (lines_e m)))).
-    { destruct St as [[-> ->]|(done & cur & -> & ->)]; cbn [place]; rewrite HL; reflexivity. }
-    rewrite P0. rewrite fold_place_aot by apply groups_nonroot. rewrite HS. cbn [optmap]. rewrite expect_split. reflexivity.
+  assert (ND4 : NoDup (map fst (lines_e three m ++ subs_e three m))) by (apply doc_order_nodup; exact ND).
+  destruct (table_fold ml tn (lines_e three m) (subs_e three m) ND4 (Forall_lines_e three m W) Ok) as [HL HS].
+  rewrite own_lines_e, rest_groups. split; [exact HL|exact HS].
 Qed.
 
-Lemma sub_ok_tab ml m' : read_std ml m' -> sub_ok ml (TTab m').
-Proof. intro H. split; [apply (sections_nonempty ml (TTab m') eq_refl)|exact H]. Qed.
+Lemma read_level ml tn m :
+  NoDup (map fst m) -> Forall (fun kv => wf_tv (snd kv) = true) m ->
+  Forall (fun kv => sub_ok ml tn (snd kv)) (subs_e tn m) ->
+  read_std ml tn m /\ read_arr ml tn m.
+Proof.
+  intros ND W Ok. destruct (level_fold ml tn tn m ND W Ok) as [HL HS].
+  assert (EX : expect_root ml tn tn m = expect ml tn (TTab m)) by (rewrite expect_tab; reflexivity).
+  rewrite EX in HS. split.
+  - unfold read_std. pose proof (sections_nonempty ml tn (TTab m) eq_refl tn [] KStd) as NE.
+    rewrite sections_at_tab in NE |- *. unfold own_section in NE |- *.
+    fold (vis_std ml tn m) in NE |- *. destruct (vis_std ml tn m) eqn:V.
+    + cbn [app fold_place]. unfold place_sec. cbn [s_path s_kind s_lines place]. rewrite HL. cbn [optmap].
+      rewrite fold_place_tab by (rewrite rest_groups; apply groups_nonroot). rewrite HS. reflexivity.
+    + cbn [app] in NE |- *. rewrite fold_place_none; [|rewrite rest_groups; apply groups_nonroot|exact NE].
+      assert (L0 : lines_e tn m = []).
+      { unfold vis_std in V. cbn [own_visible] in V. apply negb_false_iff in V. apply andb_true_iff in V as [_ V].
+        apply negb_true_iff in V. rewrite own_lines_e in V. destruct (lines_e tn m); [reflexivity|discriminate]. }
+      rewrite L0 in HS. cbn [map] in HS. rewrite HS. reflexivity.
+  - intros n0 done' St. rewrite sections_at_tab. unfold own_section. cbn [own_visible app fold_place].
+    unfold place_sec. cbn [s_path s_kind s_lines].
+    assert (P0 : place n0 [] KArr (own_lines ml tn tn m) = Some (RAot done' (map (line_node ml tn) (lines_e tn m)))).
+    { destruct St as [[-> ->]|(done & cur & -> & ->)]; cbn [place]; rewrite HL; reflexivity. }
+    rewrite P0. rewrite fold_place_aot by (rewrite rest_groups; apply groups_nonroot). rewrite HS. reflexivity.
+Qed.
+
+Lemma sub_ok_tab ml tn m' : read_std ml tn m' -> sub_ok ml tn (TTab m').
+Proof. intro H. split; [apply (sections_nonempty ml tn (TTab m') eq_refl)|exact H]. Qed.
 
 Lemma removelast_cons {A} (a : A) l : l <> [] -> removelast (a :: l) = a :: removelast l.
 Proof. destruct l; [congruence|reflexivity]. Qed.
@@ -581,41 +634,41 @@ Proof. destruct l; [congruence|reflexivity]. Qed.
 Lemma last_cons {A} (a : A) l d : l <> [] -> last (a :: l) d = last l d.
 Proof. destruct l; [congruence|reflexivity]. Qed.
 
-Definition elem_ok (ml : bool) (e : tv) : Prop := exists m', e = TTab m' /\ read_arr ml m'.
+Definition elem_ok (ml tn : bool) (e : tv) : Prop := exists m', e = TTab m' /\ read_arr ml tn m'.
 
-Lemma elems_fold ml l : forall n0 done', aot_start n0 done' -> l <> [] -> Forall (elem_ok ml) l ->
-  fold_place n0 (flat_map (fun e => sections_at ml true e [] KArr) l)
-  = Some (Some (RAot (done' ++ removelast (map (expect ml) l)) (last (map (expect ml) l) []))).
+Lemma elems_fold ml tn l : forall n0 done', aot_start n0 done' -> l <> [] -> Forall (elem_ok ml tn) l ->
+  fold_place n0 (flat_map (fun e => sections_at ml tn tn e [] KArr) l)
+  = Some (Some (RAot (done' ++ removelast (map (expect ml tn) l)) (last (map (expect ml tn) l) []))).
 Proof.
   induction l as [|e r IH]; intros n0 done' St NE Ok; [congruence|].
   inversion Ok as [|? ? (m' & -> & He) Ok']; subst. cbn [flat_map]. rewrite fold_place_app.
   rewrite (He n0 done' St). destruct r as [|e' r'].
   - cbn. rewrite app_nil_r. reflexivity.
-  - rewrite (IH (Some (RAot done' (expect ml (TTab m')))) (done' ++ [expect ml (TTab m')])); [| |discriminate|exact Ok'].
-    + cbn [map]. rewrite (removelast_cons (expect ml (TTab m')) (expect ml e' :: map (expect ml) r')) by discriminate.
-      rewrite (last_cons (expect ml (TTab m')) (expect ml e' :: map (expect ml) r')) by discriminate.
+  - rewrite (IH (Some (RAot done' (expect ml tn (TTab m')))) (done' ++ [expect ml tn (TTab m')])); [| |discriminate|exact Ok'].
+    + cbn [map]. rewrite (removelast_cons (expect ml tn (TTab m')) (expect ml tn e' :: map (expect ml tn) r')) by discriminate.
+      rewrite (last_cons (expect ml tn (TTab m')) (expect ml tn e' :: map (expect ml tn) r')) by discriminate.
       rewrite <- app_assoc. reflexivity.
-    + right. exists done', (expect ml (TTab m')). split; reflexivity.
+    + right. exists done', (expect ml tn (TTab m')). split; reflexivity.
 Qed.
 
-Lemma sub_ok_aot ml l : l <> [] -> Forall (elem_ok ml) l -> sub_ok ml (TArr l).
+Lemma sub_ok_aot ml tn l : l <> [] -> Forall (elem_ok ml tn) l -> sub_ok ml tn (TArr l).
 Proof.
   intros NE Ok. split.
   - destruct l as [|e r]; [congruence|]. inversion Ok as [|? ? (m' & -> & _) _]; subst.
     cbn [sub_group flat_map]. intro H. apply app_eq_nil in H as [H _].
-    exact (sections_nonempty ml (TTab m') eq_refl _ _ H).
-  - cbn [sub_group sub_rnode]. rewrite (elems_fold ml l None []); [reflexivity|left; split; reflexivity|exact NE|exact Ok].
+    exact (sections_nonempty ml tn (TTab m') eq_refl _ _ _ H).
+  - cbn [sub_group sub_rnode]. rewrite (elems_fold ml tn l None []); [reflexivity|left; split; reflexivity|exact NE|exact Ok].
 Qed.
 
 (* ------------------------------------------------------------------------------------------ *)
 (** * every table with distinct keys, at any depth *)
 
-Definition read_ok (ml : bool) (v : tv) : Prop :=
-  forall m, v = TTab m -> wf_tv v = true -> read_std ml m /\ read_arr ml m.
+Definition read_ok (ml tn : bool) (v : tv) : Prop :=
+  forall m, v = TTab m -> wf_tv v = true -> read_std ml tn m /\ read_arr ml tn m.
 
-Lemma sub_ok_entry ml x :
-  (read_ok ml x /\ forall l, x = TArr l -> Forall (read_ok ml) l) ->
-  wf_tv x = true -> is_aot x = true \/ is_table x = true -> sub_ok ml x.
+Lemma sub_ok_entry ml tn x :
+  (read_ok ml tn x /\ forall l, x = TArr l -> Forall (read_ok ml tn) l) ->
+  wf_tv x = true -> is_aot x = true \/ is_table x = true -> sub_ok ml tn x.
 Proof.
   intros [Hx Hl] W [A|T].
   - destruct x as [t|l|m']; try discriminate. specialize (Hl l eq_refl).
@@ -630,15 +683,15 @@ Proof.
   - destruct x as [t|l|m']; try discriminate. apply sub_ok_tab. exact (proj1 (Hx m' eq_refl W)).
 Qed.
 
-Lemma read_ok_all ml v : read_ok ml v.
+Lemma read_ok_all ml tn v : read_ok ml tn v.
 Proof.
   induction v as [t|l IH|m IH] using tv_ind2; intros m0 E W; try discriminate.
   injection E as <-. apply wf_tab in W as [ND W]. apply read_level; [exact ND|exact W|].
-  unfold subs_e. apply Forall_app. split; apply Forall_forall; intros kv Hin; apply filter_In in Hin as [Hin F];
-    rewrite Forall_forall in IH, W; (apply sub_ok_entry; [apply IH; exact Hin|apply W; exact Hin|]); [left|right]; exact F.
+  apply Forall_forall. intros kv Hin. apply subs_e_cases in Hin as [Hin C].
+  rewrite Forall_forall in IH, W. apply sub_ok_entry; [apply IH; exact Hin|apply W; exact Hin|exact C].
 Qed.
 
-Lemma sub_ok_all ml x : wf_tv x = true -> is_aot x = true \/ is_table x = true -> sub_ok ml x.
+Lemma sub_ok_all ml tn x : wf_tv x = true -> is_aot x = true \/ is_table x = true -> sub_ok ml tn x.
 Proof.
   intros W C. apply sub_ok_entry; [|exact W|exact C]. split; [apply read_ok_all|].
   intros l _. apply Forall_forall. intros e _. apply read_ok_all.
@@ -655,41 +708,15 @@ Proof.
   destruct (optmap (fun n' => rset k n' mm) (place (rlookup k mm) p' (s_kind s) (s_lines s))); [apply IH; exact Hr|reflexivity].
 Qed.
 
-Lemma filter_negb_perm {A} (f : A -> bool) l : Permutation (filter f l ++ filter (fun x => negb (f x)) l) l.
+Theorem place_all_canonical ml three tn m :
+  wf_tv (TTab m) = true -> place_all [] (sections_of ml three tn m) = Some (expect_root ml three tn m).
 Proof.
-  induction l as [|x r IH]; [constructor|]. cbn [filter]. destruct (f x); cbn [negb app].
-  - constructor. exact IH.
-  - symmetry. apply Permutation_cons_app. symmetry. exact IH.
-Qed.
-
-Lemma not_line_cases x : negb (is_line x) = true -> is_aot x = true \/ is_table x = true.
-Proof.
-  unfold is_line. destruct (is_table x); [right; reflexivity|]. destruct (is_aot x); [left; reflexivity|discriminate].
-Qed.
-
-Theorem place_all_canonical ml three m :
-  wf_tv (TTab m) = true -> place_all [] (sections_of ml three m) = Some (expect_root ml three m).
-Proof.
-  intro W0. pose proof W0 as W1. apply wf_tab in W1 as [ND W].
+  intro W0. apply wf_tab in W0 as [ND W].
+  assert (Ok : Forall (fun kv => sub_ok ml tn (snd kv)) (subs_e three m)).
+  { apply Forall_forall. intros kv Hin. apply subs_e_cases in Hin as [Hin C].
+    rewrite Forall_forall in W. apply sub_ok_all; [apply W; exact Hin|exact C]. }
+  destruct (level_fold ml three tn m ND W Ok) as [HL HS].
   unfold sections_of. rewrite sections_at_tab. unfold own_section. cbn [own_visible app place_all].
-  unfold place_root. cbn [s_path s_kind s_lines]. destruct three.
-  - assert (ND4 : NoDup (map fst (lines_e m ++ subs_e m))) by (rewrite <- order4_split; apply order4_nodup; exact ND).
-    assert (Wl : Forall (fun kv => wf_tv (snd kv) = true) (lines_e m)).
-    { unfold lines_e. apply Forall_app. split; apply Forall_filter; exact W. }
-    assert (Ok : Forall (fun kv => sub_ok ml (snd kv)) (subs_e m)).
-    { unfold subs_e. apply Forall_app. split; apply Forall_forall; intros kv Hin; apply filter_In in Hin as [Hin F];
-        rewrite Forall_forall in W; (apply sub_ok_all; [apply W; exact Hin|]); [left|right]; exact F. }
-    destruct (table_fold ml (lines_e m) (subs_e m) ND4 Wl Ok) as [HL HS].
-    rewrite <- own_lines_e in HL. rewrite HL, rest_groups.
-    rewrite place_all_fold_in by apply groups_nonroot. rewrite HS. cbn [expect_root]. rewrite expect_split. reflexivity.
-  - set (le := filter (fun kv => is_line (snd kv)) m). set (se := filter (fun kv => negb (is_line (snd kv))) m).
-    assert (ND2 : NoDup (map fst (le ++ se))).
-    { eapply Permutation_NoDup; [|exact ND]. apply Permutation_map. symmetry. apply filter_negb_perm. }
-    assert (Wl : Forall (fun kv => wf_tv (snd kv) = true) le) by (apply Forall_filter; exact W).
-    assert (Ok : Forall (fun kv => sub_ok ml (snd kv)) se).
-    { apply Forall_forall. intros kv Hin. apply filter_In in Hin as [Hin F]. rewrite Forall_forall in W.
-      apply sub_ok_all; [apply W; exact Hin|]. apply not_line_cases. exact F. }
-    destruct (table_fold ml le se ND2 Wl Ok) as [HL HS].
-    unfold own_lines, lines_where. fold le. rewrite HL, sub_secs_groups. fold se.
-    rewrite place_all_fold_in by apply groups_nonroot. rewrite HS. reflexivity.
+  unfold place_root. cbn [s_path s_kind s_lines]. rewrite HL.
+  rewrite place_all_fold_in by (rewrite rest_groups; apply groups_nonroot). exact HS.
 Qed.
